@@ -143,6 +143,11 @@ def step (_ : Unit) (toks : List String) : Unit × String :=
         | none => "err read2")
       | none => "err read"
     | _, _, _, _ => "bad-op")
+  | "ship" :: pieces =>
+    -- arbitrary Writer.Write calls (also of nothing) through Reader.WriteTo
+    (match pieces.mapM parseBytes with
+    | some ps => s!"ok {hx (readerWriteTo (ps.map writerWrite))}"
+    | none => "bad-op")
   | "compress" :: _ => "ok"
   | ["kf", "K7", "pooled-command"] => "ok mismatch || ok same"
   | _ => "bad-op")
